@@ -332,6 +332,36 @@ def run(prog, tier):
         return a
 
     unknown = []
+    # calls of local lambdas that touch the stream
+    from paths import local_init
+    lam_calls = {}
+    for n in w.all_nodes({'CXXOperatorCallExpr'}):
+        if n.get('op') != '()' or not n.get('args'):
+            continue
+        o_ = w.nodes[w.strip(n['args'][0], 'all')]
+        if o_['k'] != 'DeclRefExpr' or o_['decl'].get('dk') != 'local':
+            continue
+        ini = local_init(w, o_['decl']['id'])
+        lam = None
+        if ini is not None:
+            for x in [ini] + list(w.descendants(ini)):
+                if w.nodes[x]['k'] == 'LambdaExpr':
+                    lam = w.nodes[x]
+                    break
+        if lam is None:
+            continue
+        inside = set(w.descendants(lam['id']))
+        if not any(u in inside for u in uses):
+            continue        # does not touch the stream
+        body = [x for x in lam['ch'] if w.nodes[x]['k'] == 'CompoundStmt']
+        st = [w.nodes[x] for x in w.nodes[body[0]]['ch']] if body else []
+        ent = None
+        if len(st) == 1 and st[0]['k'] == 'IfStmt' and 'else' not in st[0] and not lam.get('lparams'):
+            th = [w.nodes[x]['k'] for x in w.descendants(st[0]['then'])]
+            only_tests = all(uses[u][0] == 'member' and uses[u][1] in TESTS for u in uses if u in inside)
+            if 'CXXThrowExpr' in th and only_tests:
+                ent = {'cond': st[0]['cond'], 'then_throws': True}
+        lam_calls[n['id']] = ent
 
     def step(vid, state):
         env = state[4] if len(state) > 4 else frozenset()
@@ -383,6 +413,18 @@ def run(prog, tier):
                 if 'throw' in res_:
                     return [(state, 'throw')]
                 return [(state, 'next')]
+        if nid in lam_calls:
+            # a local lambda `auto check = [&]{ if (f.fail()) throw ...; };` called here: a test of the stream followed by a throw
+            lc = lam_calls[nid]
+            if lc is None:
+                unknown.append((nid, 'the stream is used inside a local lambda whose body is not `if (<stream test>) throw ...;`'))
+                return [(state, 'next')]
+            val = eval_bool(w, lc['cond'], atom(state + (frozenset(),)))
+            if val is True:
+                return [(state, 'throw' if lc['then_throws'] else 'next')]
+            if val is False:
+                return [(state, 'next')]
+            return [(state, 'next'), (state, 'throw')]
         if nid == ctor:
             n = w.nodes[nid]
             if n['callee']['nparams'] == 0:
